@@ -327,3 +327,119 @@ def r10_5(ctx, repo):
                           'time')
     if n < 1:
         ctx.error(rule, 'get_dosing_regimen not analysed')
+
+
+# -----------------------------------------------------------------------------
+# R10.7 — the k-th periodic dose is listed at start + k * period
+# -----------------------------------------------------------------------------
+def r10_7(ctx, repo):
+    """The regimen table lists a periodic event (start, period, multiplier)
+    at the times start + k * period, k = 0, 1, ... — the times myokit's
+    pacing applies it.  The expression that builds the time column is lifted
+    to a function of the element index k (comprehensions over range(n),
+    np.arange, arithmetic) and compared with that."""
+    rule = 'R10.7'
+    import sympy as sp
+    cls = 'PredictiveModel'
+    fn = repo.method(cls, 'get_dosing_regimen')
+    construct = '%s.get_dosing_regimen' % cls
+    loops = [l for l in ast.walk(fn) if isinstance(l, ast.For)
+             and U(l.iter).endswith('.events()')]
+    if len(loops) != 1:
+        ctx.error(rule, '%s: loop over the protocol events not found'
+                  % construct)
+        return
+    loop = loops[0]
+    ev = U(loop.target)
+    src = {}
+    for a in ast.walk(loop):
+        if isinstance(a, ast.Assign) and isinstance(
+                a.targets[0], ast.Name) and isinstance(
+                a.value, ast.Call) and U(a.value.func).startswith(ev + '.'):
+            src.setdefault(U(a.value.func).split('.')[-1], a.targets[0].id)
+    if 'start' not in src or 'period' not in src:
+        ctx.error(rule, '%s: start / period of the event not read'
+                  % construct)
+        return
+    k = sp.Symbol('k', integer=True, nonnegative=True)
+    START, PERIOD = sp.Symbol('start'), sp.Symbol('period')
+    names = {src['start']: START, src['period']: PERIOD}
+
+    class NotLifted(Exception):
+        pass
+
+    def elem(e, bind):
+        """the k-th element of a sequence-valued expression / the value of
+        a scalar one"""
+        if isinstance(e, ast.Constant) and isinstance(e.value, (int, float)):
+            return sp.nsimplify(e.value)
+        if isinstance(e, ast.Name):
+            if e.id in bind:
+                return bind[e.id]
+            if e.id in names:
+                return names[e.id]
+            return sp.Symbol(e.id)
+        if isinstance(e, ast.ListComp) and len(e.generators) == 1 \
+                and not e.generators[0].ifs and isinstance(
+                    e.generators[0].target, ast.Name):
+            g = e.generators[0]
+            b2 = dict(bind)
+            b2[g.target.id] = elem(g.iter, bind)
+            return elem(e.elt, b2)
+        if isinstance(e, ast.Call):
+            f = U(e.func)
+            if f in ('range', 'np.arange', 'numpy.arange'):
+                args = list(e.args)
+                kw = {k_.arg: k_.value for k_ in e.keywords}
+                if len(args) == 1 and not kw:
+                    return k
+                a0 = elem(kw.get('start', args[0]), bind) if (
+                    'start' in kw or len(args) >= 2) else sp.Integer(0)
+                st = kw.get('step', args[2] if len(args) >= 3 else None)
+                s0 = elem(st, bind) if st is not None else sp.Integer(1)
+                return a0 + k * s0
+            if f in ('np.array', 'np.asarray', 'list', 'np.copy', 'float',
+                     'np.float64') and e.args:
+                return elem(e.args[0], bind)
+            if f in ('np.linspace',):
+                raise NotLifted(U(e)[:40])
+            raise NotLifted(U(e)[:40])
+        if isinstance(e, ast.BinOp):
+            a, b = elem(e.left, bind), elem(e.right, bind)
+            op = {ast.Add: lambda x, y: x + y, ast.Sub: lambda x, y: x - y,
+                  ast.Mult: lambda x, y: x * y,
+                  ast.Div: lambda x, y: x / y}.get(type(e.op))
+            if op is None:
+                raise NotLifted(U(e)[:40])
+            return op(a, b)
+        if isinstance(e, ast.UnaryOp) and isinstance(e.op, ast.USub):
+            return -elem(e.operand, bind)
+        raise NotLifted(U(e)[:40])
+    # the sequence that is built from start and period
+    cands = [a for a in ast.walk(loop) if isinstance(a, ast.Assign)
+             and len(a.targets) == 1 and isinstance(a.targets[0], ast.Name)
+             and {src['start'], src['period']} <= {
+                 x.id for x in ast.walk(a.value) if isinstance(x, ast.Name)}]
+    if not cands:
+        ctx.error(rule, '%s: construction of the periodic dose times not '
+                  'found' % construct)
+        return
+    a = cands[0]
+    where = repo.loc(a, cls, fn.name)
+    try:
+        got = sp.expand(elem(a.value, {}))
+    except NotLifted as e:
+        ctx.error(rule, '%s: dose times `%s` not lifted (%s)' % (
+            construct, U(a.value)[:50], e))
+        return
+    want = START + k * PERIOD
+    if sp.expand(got - want) == 0:
+        ctx.ok(rule, where, construct,
+               'the k-th dose of a periodic event is listed at start + k * '
+               'period')
+    else:
+        ctx.violation(
+            rule, where, construct, 'dose times',
+            '`%s` lists the k-th dose of a periodic event at %s; the '
+            'simulation applies it at start + k*period' % (
+                norm_stmt(a)[:60], got))
